@@ -14,10 +14,18 @@ pub mod c10;
 pub mod c11;
 pub mod c12;
 pub mod c13;
+pub mod c14;
 pub mod c15;
 pub mod c16;
 pub mod c20;
 pub mod fid;
+
+/// Parent-side preparation before the lanes start.
+pub fn prepare(id: &str) {
+    if id == "C14" {
+        c14::prepare();
+    }
+}
 
 pub struct Info {
     pub level: &'static str,
@@ -50,6 +58,7 @@ registry! {
     "C11" => c11,
     "C12" => c12,
     "C13" => c13,
+    "C14" => c14,
     "C15" => c15,
     "C16" => c16,
     "C20" => c20,
